@@ -11,6 +11,7 @@ package main
 
 import (
 	"bufio"
+	"encoding/json"
 	"fmt"
 	"go/types"
 	"golang.org/x/tools/go/ssa"
@@ -607,12 +608,18 @@ func (e *Engine) replayOnce(vc *VC, o *Obligation, fn *ssa.Function, pkgDir stri
 	}
 	var b strings.Builder
 	testName := "TestReplay_" + nameRe.ReplaceAllString(vc.fnKey, "_") + fmt.Sprintf("_%d", o.ID)
-	fmt.Fprintf(&b, "func %s(t *testing.T) {\n%s\n", testName, strings.Join(decls, "\n"))
+	fmt.Fprintf(&b, "func %s(tT *testing.T) {\n%s\n", testName, strings.Join(decls, "\n"))
 	call := fmt.Sprintf("%s(%s)", fn.Name(), strings.Join(args, ", "))
+	if fn.Signature.Recv() != nil && len(args) > 0 {
+		call = fmt.Sprintf("%s.%s(%s)", args[0], fn.Name(), strings.Join(args[1:], ", "))
+	}
 	if panicky[o.Kind] {
-		fmt.Fprintf(&b, "\tdefer func() {\n\t\tif r := recover(); r != nil {\n\t\t\tfmt.Println(\"REPLAY-CONFIRMED: the real code panics:\", r)\n\t\t\treturn\n\t\t}\n\t\tt.Fatalf(\"REPLAY-MISMATCH: the verifier predicts a panic, the real code returned normally\")\n\t}()\n")
+		fmt.Fprintf(&b, "\tdefer func() {\n\t\tif r := recover(); r != nil {\n\t\t\tfmt.Println(\"REPLAY-CONFIRMED: the real code panics:\", r)\n\t\t\treturn\n\t\t}\n\t\ttT.Fatalf(\"REPLAY-MISMATCH: the verifier predicts a panic, the real code returned normally\")\n\t}()\n")
 		if len(res) > 0 {
-			fmt.Fprintf(&b, "\t%s := %s\n\t_ = %s\n", strings.Join(res, ", "), call, res[0])
+			fmt.Fprintf(&b, "\t%s := %s\n", strings.Join(res, ", "), call)
+			for _, rn := range res {
+				fmt.Fprintf(&b, "\t_ = %s\n", rn)
+			}
 		} else {
 			fmt.Fprintf(&b, "\t%s\n", call)
 		}
@@ -628,7 +635,7 @@ func (e *Engine) replayOnce(vc *VC, o *Obligation, fn *ssa.Function, pkgDir stri
 			if isDiagnostics(rt) {
 				n, okn := c.evalInt("(dn " + o.retVals[i].T + ")")
 				if okn {
-					fmt.Fprintf(&b, "\tif len(r%d) != %d {\n\t\tok = false\n\t\tt.Logf(\"result %d: the model predicts %d diagnostics, the real code returned %%d: %%v\", len(r%d), r%d)\n\t}\n", i, n, i, n, i, i)
+					fmt.Fprintf(&b, "\tif len(r%d) != %d {\n\t\tok = false\n\t\ttT.Logf(\"result %d: the model predicts %d diagnostics, the real code returned %%d: %%v\", len(r%d), r%d)\n\t}\n", i, n, i, n, i, i)
 				}
 				continue
 			}
@@ -638,13 +645,13 @@ func (e *Engine) replayOnce(vc *VC, o *Obligation, fn *ssa.Function, pkgDir stri
 			}
 			we, okc := c.conc(term, rt, o.retHeap, 0)
 			if okc {
-				fmt.Fprintf(&b, "\t{\n\t\twant := %s\n\t\tif !reflect.DeepEqual(r%d, want) {\n\t\t\tok = false\n\t\t\tt.Logf(\"result %d: model %%#v, real code %%#v\", want, r%d)\n\t\t}\n\t}\n", we, i, i, i)
+				fmt.Fprintf(&b, "\t{\n\t\twant := %s\n\t\tif !reflect.DeepEqual(r%d, want) {\n\t\t\tok = false\n\t\t\ttT.Logf(\"result %d: model %%#v, real code %%#v\", want, r%d)\n\t\t}\n\t}\n", we, i, i, i)
 			}
 		}
 		for _, ck := range checks {
-			fmt.Fprintf(&b, "\t{\n\t\twant := %s\n\t\tif !reflect.DeepEqual(%s, want) {\n\t\t\tok = false\n\t\t\tt.Logf(\"%s after the call: model %%#v, real code %%#v\", want, %s)\n\t\t}\n\t}\n", ck.want, ck.name, ck.name, ck.name)
+			fmt.Fprintf(&b, "\t{\n\t\twant := %s\n\t\tif !reflect.DeepEqual(%s, want) {\n\t\t\tok = false\n\t\t\ttT.Logf(\"%s after the call: model %%#v, real code %%#v\", want, %s)\n\t\t}\n\t}\n", ck.want, ck.name, ck.name, ck.name)
 		}
-		fmt.Fprintf(&b, "\tif !ok {\n\t\tt.Fatalf(\"REPLAY-MISMATCH: the real code does not behave as the verifier's model predicts\")\n\t}\n\tfmt.Println(\"REPLAY-CONFIRMED: on this input the real code produces exactly the state the model predicts, which violates the clause\")\n}\n")
+		fmt.Fprintf(&b, "\tif !ok {\n\t\ttT.Fatalf(\"REPLAY-MISMATCH: the real code does not behave as the verifier's model predicts\")\n\t}\n\tfmt.Println(\"REPLAY-CONFIRMED: on this input the real code produces exactly the state the model predicts, which violates the clause\")\n}\n")
 	}
 	if panicky[o.Kind] {
 		b.WriteString("}\n")
@@ -657,13 +664,24 @@ func (e *Engine) replayOnce(vc *VC, o *Obligation, fn *ssa.Function, pkgDir stri
 	file := "package " + fn.Pkg.Pkg.Name() + "\n\nimport (\n" + strings.Join(imp, "\n") + "\n)\n\nvar _ = reflect.DeepEqual\nvar _ = fmt.Sprint\nvar _ = context.Background\n\n" + strings.Join(c.helpers, "\n") + "\n" + b.String()
 	rr.Test = file
 	rr.Approx = c.approx
-	path := filepath.Join(pkgDir, "zz_replay_"+nameRe.ReplaceAllString(vc.fnKey, "_")+fmt.Sprintf("_%d_test.go", o.ID))
-	if err := os.WriteFile(path, []byte(file), 0o644); err != nil {
+	// the test is injected with -overlay: nothing is written into the package directory
+	tmp, err := os.MkdirTemp("", "govc-replay-")
+	if err != nil {
 		rr.Note = err.Error()
 		return nil
 	}
-	defer os.Remove(path)
-	cmd := exec.Command("go", "test", "-v", "-vet=off", "-count=1", "-timeout", "60s", "-run", "^"+testName+"$", ".")
+	defer os.RemoveAll(tmp)
+	base := "zz_replay_" + nameRe.ReplaceAllString(vc.fnKey, "_") + fmt.Sprintf("_%d_test.go", o.ID)
+	real := filepath.Join(tmp, base)
+	if err := os.WriteFile(real, []byte(file), 0o644); err != nil {
+		rr.Note = err.Error()
+		return nil
+	}
+	absPkg, _ := filepath.Abs(pkgDir)
+	ov, _ := json.Marshal(map[string]map[string]string{"Replace": {filepath.Join(absPkg, base): real}})
+	ovFile := filepath.Join(tmp, "overlay.json")
+	_ = os.WriteFile(ovFile, ov, 0o644)
+	cmd := exec.Command("go", "test", "-overlay", ovFile, "-v", "-vet=off", "-count=1", "-timeout", "60s", "-run", "^"+testName+"$", ".")
 	cmd.Dir = pkgDir
 	cmd.Env = append(os.Environ(), "GOFLAGS=-mod=mod", "GOPROXY=off", "GOSUMDB=off", "GOTOOLCHAIN=local")
 	out, _ := cmd.CombinedOutput()
